@@ -241,9 +241,11 @@ func damage(r *rand.Rand, t *SpecTable, body []*Node) []*Node {
 }
 
 // ComposeDriver: random compositions and damaged programs under random File settings.
-func ComposeDriver(tablePath string, n int) [][]Action {
+func ComposeDriver(tablePath string, n int) [][]Action { return ComposeDriverSeeded(tablePath, n, 0) }
+
+func ComposeDriverSeeded(tablePath string, n int, salt int64) [][]Action {
 	t := LoadTable(tablePath)
-	r := newRand(9001)
+	r := newRand(9001 + salt)
 	out := [][]Action{}
 	tpls := templates()
 	for i := 0; i < n; i++ {
